@@ -66,6 +66,7 @@ func runC25(c *Ctx) {
 	requireStateless(c, "M1-no-state-between-requests", "(control/beaconing.Handler).HandleBeacon")
 	c25TopologyReload(c)
 	c25LoopDetectors(c)
+	c25BlockLists(c)
 	hT :="(control/beaconing.Handler)"
 	if fn := c.Fn(hT + ".HandleBeacon"); fn != nil {
 		e := NewE1(c, fn)
